@@ -1,3 +1,45 @@
-From RQ Require Import Model.C11 Proofs.C11.
-Theorem C11_stub : True. Proof. exact stub11. Qed.
-Print Assumptions C11_stub.
+(* C11 — property theorems only.  `run senabled sstep sinit l = Some s`: s is reached by the
+   schedule l - any interleaving of opens, reads, closes, idle-timer fires (due or early),
+   snapshot creations, Store.Reap calls and steps of the reaper goroutine. *)
+From Coq Require Import List String ZArith Bool.
+From RQ Require Import Lib.C34_Sched Model.C34 Model.C11 Proofs.C11.
+Import ListNotations.
+
+Theorem C11_reaping_excludes_streams : forall l s, run senabled sstep sinit l = Some s ->
+  reaping s = true ->
+  (forall i st, nth_error (strs s) i = Some st -> holding st = false) /\
+  nholding (strs s) = 0 /\ ~ (manual s = true /\ loop s = LReaping).
+Proof. exact reaping_excludes_streams. Qed.
+Print Assumptions C11_reaping_excludes_streams.
+
+Theorem C11_reader_count : forall l s, run senabled sstep sinit l = Some s ->
+  m_nr (lk s) = Z.of_nat (nholding (strs s)) /\ (0 <= m_nr (lk s))%Z.
+Proof. exact reader_count. Qed.
+Print Assumptions C11_reader_count.
+
+Theorem C11_release_exactly_once : forall l s, run senabled sstep sinit l = Some s ->
+  (forall i st, nth_error (strs s) i = Some st ->
+     s_released st = (if s_opened st && s_closed st then 1 else 0) /\ s_released st <= 1 /\
+     (s_timedout st = true -> s_closed st = true)) /\
+  (forall a, senabled s a = true -> snd (sstep_obs s a) <> OPanic /\ snd (sstep_obs s a) <> OInvalid).
+Proof. exact release_exactly_once. Qed.
+Print Assumptions C11_release_exactly_once.
+
+Theorem C11_reap_enabled_when_streams_done : forall l s, run senabled sstep sinit l = Some s ->
+  nholding (strs s) = 0 -> reaping s = false ->
+  senabled s AReapBegin = true /\ snd (sstep_obs s AReapBegin) = OOk /\
+  (loop s = LWaiting ->
+     senabled s ALoopResume = true /\ snd (sstep_obs s ALoopResume) = OOk /\
+     loop (sstep s ALoopResume) = LReaping).
+Proof. exact reap_enabled_when_streams_done. Qed.
+Print Assumptions C11_reap_enabled_when_streams_done.
+
+Theorem C11_idle_fire_releases_partial : forall l s i st, run senabled sstep sinit l = Some s ->
+  nth_error (strs s) i = Some st -> holding st = true ->
+  senabled s (AFire i) = true /\ snd (sstep_obs s (AFire i)) = OOk /\
+  let s' := sstep s (AFire i) in
+  S (nholding (strs s')) = nholding (strs s) /\
+  (exists st', nth_error (strs s') i = Some st' /\ s_closed st' = true /\ s_timedout st' = true /\ s_released st' = 1) /\
+  snd (sstep_obs s' (ARead i)) = OTimeoutErr /\ sstep_obs s' (AClose i) = (s', OOk).
+Proof. exact idle_fire_releases. Qed.
+Print Assumptions C11_idle_fire_releases_partial.
